@@ -211,11 +211,13 @@ class State:
         s.cap = None       # lower bound of the capacity
         s.hidden = False
         s.acc = []         # (kind, off, count, span, J?) pending obligations
+        s.moves = []       # block moves inside the buffer in execution order: (src offset, dst offset, count)
     def fork(s):
         t = State()
         t.env = dict(s.env); t.fields = dict(s.fields); t.sub = s.sub.clone()
         t.vlen, t.L0, t.cap, t.hidden = s.vlen, s.L0, s.cap, s.hidden
         t.acc = list(s.acc)
+        t.moves = list(s.moves)
         return t
 
 
@@ -426,6 +428,8 @@ class Sym:
 
     def access(s, P, kind, ptr, count, span, what):
         if not isinstance(ptr, Ptr):
+            if isinstance(ptr, Unk) and ptr.tag not in ("elem", "slice", "item", "const"):
+                P.acc.append(("undecided", "%s: pointer %r is not a tracked offset from the buffer start" % (what, ptr), ZERO, span))
             return
         if not isinstance(count, Poly):
             P.acc.append(("undecided", "%s: count %r not a polynomial" % (what, count), ZERO, span))
@@ -462,6 +466,11 @@ class Sym:
                 s.access(P, "r", args[ri], cnt, t["span"], "%s source" % name)
             if wi is not None:
                 s.access(P, "w", args[wi], cnt, t["span"], "%s destination" % name)
+            if kind == "rw" and isinstance(args[ri], Ptr) and isinstance(args[wi], Ptr) and isinstance(cnt, Poly):
+                mv = (args[ri].off, args[wi].off, cnt)
+                if P.moves:
+                    P.acc.append(("ORDER", "block move %r -> %r (%r cells) after block move %r -> %r (%r cells)" % (mv + P.moves[-1]), (P.moves[-1], mv), t["span"]))
+                P.moves.append(mv)
             return [(P, Unk("elem"))]
         if re.match(r"^core::ptr::(mut_ptr|const_ptr)::<impl \*(mut|const) T>::(add|sub|offset|wrapping_add|wrapping_sub)$", opath) and isinstance(a0v, Ptr) and isinstance(args[1], Poly):
             return [(P, Ptr(a0v.off + args[1] if name in ("add", "offset", "wrapping_add") else a0v.off - args[1]))]
@@ -496,6 +505,8 @@ class Sym:
         if name in ("from_raw_parts_mut", "from_raw_parts") and isinstance(args[0], Ptr):
             s.access(P, "r", args[0], args[1], t["span"], "slice::%s region" % name)
             return [(P, Unk("slice"))]
+        if name == "new" and "RangeInclusive" in opath and len(args) == 2 and all(isinstance(x, Poly) for x in args):
+            return [(P, RangeV(args[0], args[1] + ONE))]        # a..=b visits a .. b+1
         if name in ("into_iter",) and isinstance(a0v, RangeV): return [(P, a0v)]
         if name in ("into_iter", "rev") : return [(P, a0v if a0v is not None else Unk("iter"))]
         if name == "len" and (fn.get("trait") or "").endswith("ExactSizeIterator"):
@@ -642,6 +653,11 @@ class Sym:
         if body_entry is None or exit_blk is None:
             raise Inconclusive("loop switch shape")
         loop_blocks = s.loops[h]
+        # the loop variable: Some(a + J) of a forward range, Some(b - 1 - J) of a reversed one
+        item_local = t["dest"]["local"] if not t["dest"]["proj"] else None
+        reversed_ = "Rev<" in ((fnr.get("resolved") or "") + " ".join(fnr.get("args", [])) + (fnr.get("self_ty") or ""))
+        def item_at(J):
+            return (rng.b - ONE - J) if reversed_ else (rng.a + J)
         carried = set()
         for bi in loop_blocks:
             for st in b.blocks[bi]["stmts"]:
@@ -660,6 +676,8 @@ class Sym:
             marks[l] = at
             QA.env[l] = Ptr(at) if isinstance(v, Ptr) else at
         QA.acc = []
+        if item_local is not None:
+            QA.env[item_local] = SomeV(Poly.atom("@item"))
         s.in_loop = h
         outs = []
         try:
@@ -700,6 +718,10 @@ class Sym:
                     cur = off0 + Jval * delta[l]
                     QB.env[l] = Ptr(cur) if isinstance(v, Ptr) else cur
             QB.acc = []
+            if Jname == "last":
+                QB.moves = []          # its predecessor is the previous iteration (checked below), not the code before the loop
+            if item_local is not None:
+                QB.env[item_local] = SomeV(item_at(Jval))
             s.in_loop = h
             outsB = []
             try:
@@ -709,6 +731,39 @@ class Sym:
             for O in outsB:
                 for a in O.acc:
                     s.obls.append(((a[0], "[%s iteration of the loop, n = %r] %s" % (Jname, n, a[1]), a[2], a[3]), O.sub.clone()))
+            if Jname == "last":
+                last_moves = [list(O.moves) for O in outsB]
+        # order of block moves across the back edge: iteration J followed by J+1, checked at both ends (J = 0 and J = n-2)
+        for Jname, Ja, Jb in (("first two iterations", ZERO, ONE), ("last two iterations", n - ONE - ONE, n - ONE)):
+            ends = []
+            for Jval in (Ja, Jb):
+                QB = P.fork()
+                QB.sub.add_ge(n - ONE - ONE, "loop executes twice")
+                for l in carried:
+                    v = P.env[l]
+                    if delta[l] is None:
+                        QB.env[l] = Unk("widened")
+                    else:
+                        off0 = v.off if isinstance(v, Ptr) else v
+                        cur = off0 + Jval * delta[l]
+                        QB.env[l] = Ptr(cur) if isinstance(v, Ptr) else cur
+                QB.acc = []; QB.moves = []
+                if item_local is not None:
+                    QB.env[item_local] = SomeV(item_at(Jval))
+                s.in_loop = h
+                outsC = []
+                try:
+                    s.step(QB, body_entry, depth + 1, stop_at=h, collect=outsC)
+                except Inconclusive:
+                    outsC = []
+                finally:
+                    s.in_loop = None
+                ends.append(outsC)
+            for Oa in ends[0]:
+                for Ob in ends[1]:
+                    if Oa.moves and Ob.moves:
+                        pr, nx = Oa.moves[-1], Ob.moves[0]
+                        s.obls.append((("ORDER", "[%s of the loop, n = %r] block move %r -> %r (%r cells) after block move %r -> %r (%r cells)" % ((Jname, n) + nx + pr), (pr, nx), b.blocks[h]["term"]["span"]), Ob.sub.clone()))
         # after the loop
         QE = P.fork()
         for l in carried:
@@ -721,6 +776,12 @@ class Sym:
                 QE.env[l] = Ptr(fin) if isinstance(v, Ptr) else fin
         if rl is not None:
             QE.env[rl] = RangeV(rng.b, rng.b)
+        # the move that precedes the code after the loop: the last iteration's, when the loop certainly ran
+        lm = [m for m in (locals().get("last_moves") or []) if m]
+        if lm and P.sub.sign(n - ONE)[0] == "nonneg":
+            QE.moves = [lm[0][-1]]
+        elif lm:
+            QE.moves = []
         s.step(QE, exit_blk, depth + 1)
 
 
@@ -801,6 +862,33 @@ def r_rawbounds(f):
                 continue
             if kind == "count" :
                 # wrapping subtraction feeding an access is judged through the access itself
+                continue
+            if kind == "ORDER":
+                # two consecutive block moves inside one buffer: when both shift right (dst >= src) the later one must read
+                # strictly below the earlier one's source (back to front), when both shift left strictly above it (front to
+                # back); otherwise the later move reads cells the earlier one has already overwritten.  Reported only when
+                # the order is refuted AND the two ranges cannot be shown disjoint either.
+                (s1, d1, c1), (s2, d2, c2) = T
+                nsite += 1
+                right = sub.sign(d1 - s1)[0] == "nonneg" and sub.sign(d2 - s2)[0] == "nonneg"
+                left = sub.sign(s1 - d1)[0] == "nonneg" and sub.sign(s2 - d2)[0] == "nonneg"
+                if right and left:
+                    ok_n += 1; continue
+                if not (right or left):
+                    und_n += 1; continue
+                Tm = (s1 - s2 - c2) if right else (s2 - s1 - c1)
+                sgm, Tn = sub.sign(Tm)
+                disjoint = sub.sign(s2 - d1 - c1)[0] == "nonneg" or sub.sign(d1 - s2 - c2)[0] == "nonneg"
+                if sgm == "nonneg" or disjoint:
+                    ok_n += 1
+                elif sgm == "neg" and not sub.dropped:
+                    bad_n += 1
+                    key = "order|%s|%r" % ("right" if right else "left", Tn)
+                    if key not in seen_bad:
+                        seen_bad.add(key)
+                        R.fail(b.ident, key, "%s: %s: both moves shift cells to the %s, so they must proceed %s; here the later move's source starts %s the earlier one's (slack %r after substituting the path facts) and the earlier destination [%r, +%r) is not provably clear of the later source [%r, +%r): the later move copies cells that were already overwritten" % (b.ident, what, "right" if right else "left", "back to front" if right else "front to back", "above" if right else "below", Tn, d1, c1, s2, c2), b.where(span))
+                else:
+                    und_n += 1
                 continue
             sg, Tn = sub.sign(T)
             nsite += 1
